@@ -586,13 +586,13 @@ class TransverselyIsotropic(_Elastic):
         self.vl = vl
         self.vt = vt
 
-        axis_l = AsCoords(axis_l)
-        axis_t = AsCoords(axis_t)
+        axis_l = Normalize(AsCoords(axis_l))
+        axis_t = Normalize(AsCoords(axis_t))
         assert axis_l.size == 3 and len(axis_l.shape) == 1, "axis_l must be a 3D vector"
         assert axis_t.size == 3 and len(axis_t.shape) == 1, "axis_t must be a 3D vector"
-        assert axis_l @ axis_t <= 1e-12, "axis1 and axis2 must be perpendicular"
-        self.__axis_l = Normalize(axis_l)
-        self.__axis_t = Normalize(axis_t)
+        assert abs(axis_l @ axis_t) <= 1e-12, "axis1 and axis2 must be perpendicular"
+        self.__axis_l = axis_l
+        self.__axis_t = axis_t
 
     @property
     def Gt(self) -> Union[float, _types.FloatArray]:
@@ -870,13 +870,13 @@ class Orthotropic(_Elastic):
         self.v13 = v13
         self.v12 = v12
 
-        axis_1 = AsCoords(axis_1)
-        axis_2 = AsCoords(axis_2)
+        axis_1 = Normalize(AsCoords(axis_1))
+        axis_2 = Normalize(AsCoords(axis_2))
         assert axis_1.size == 3 and len(axis_1.shape) == 1, "axis_1 must be a 3D vector"
         assert axis_2.size == 3 and len(axis_2.shape) == 1, "axis_2 must be a 3D vector"
-        assert axis_1 @ axis_2 <= 1e-12, "axis1 and axis2 must be perpendicular"
-        self.__axis_1 = Normalize(axis_1)
-        self.__axis_2 = Normalize(axis_2)
+        assert abs(axis_1 @ axis_2) <= 1e-12, "axis1 and axis2 must be perpendicular"
+        self.__axis_1 = axis_1
+        self.__axis_2 = axis_2
 
     @property
     def axis_1(self) -> _types.FloatArray:
@@ -1155,13 +1155,13 @@ class Anisotropic(_Elastic):
         # here planeStress is set to False because we just know the C matrix
         _Elastic.__init__(self, dim, thickness, False)
 
-        axis1 = AsCoords(axis1)
-        axis2 = AsCoords(axis2)
+        axis1 = Normalize(AsCoords(axis1))
+        axis2 = Normalize(AsCoords(axis2))
         assert axis1.size == 3 and len(axis1.shape) == 1, "axis1 must be a 3D vector"
         assert axis2.size == 3 and len(axis2.shape) == 1, "axis2 must be a 3D vector"
-        assert axis1 @ axis2 <= 1e-12, "axis1 and axis2 must be perpendicular"
-        self.__axis1 = Normalize(axis1)
-        self.__axis2 = Normalize(axis2)
+        assert abs(axis1 @ axis2) <= 1e-12, "axis1 and axis2 must be perpendicular"
+        self.__axis1 = axis1
+        self.__axis2 = axis2
 
         self.Set_C(C, useVoigtNotation)
 
